@@ -74,4 +74,78 @@ theorem periodText_backticked (a : List Char) (ha : ∀ c ∈ a, c ≠ '`') :
         exact List.mem_reverse.mp this
       rw [dropWhile_head_false _ _ _ (hnb d hd), ← hr, List.reverse_reverse]
 
+/-- `strip` only removes characters. -/
+theorem mem_of_mem_stripBy (p : Char → Bool) (c : Char) (a : List Char) (h : c ∈ stripBy p a) : c ∈ a := by
+  unfold stripBy at h
+  have h1 : c ∈ ((a.dropWhile p).reverse.dropWhile p) := List.mem_reverse.mp h
+  have h2 : c ∈ (a.dropWhile p).reverse := (List.dropWhile_sublist p).subset h1
+  have h3 : c ∈ a.dropWhile p := List.mem_reverse.mp h2
+  exact (List.dropWhile_sublist p).subset h3
+
+theorem contains_of_strip_contains (c : Char) (a : List Char) (h : (strip a).contains c = true) :
+    a.contains c = true := by
+  have : c ∈ strip a := by simpa using h
+  have := mem_of_mem_stripBy isWs c a this
+  simpa using this
+
+theorem contains_append_left (c : Char) (a b : List Char) (h : a.contains c = true) : (a ++ b).contains c = true := by
+  have : c ∈ a := by simpa using h
+  simp [this]
+
+theorem contains_append_right (c : Char) (a b : List Char) (h : b.contains c = true) : (a ++ b).contains c = true := by
+  have : c ∈ b := by simpa using h
+  simp [this]
+
+/-! ### The segmentation of an expression -/
+
+/-- The segments, read back, are the expression (from the `skip`-th character on): matching loses nothing. -/
+theorem segments_text : ∀ (e : List Char) (k : Nat), (segments e k).flatMap Seg.text = e.drop k := by
+  intro e
+  induction e with
+  | nil => intro k; simp [segments]
+  | cons c cs ih =>
+    intro k
+    cases k with
+    | succ k => simp [segments, ih]
+    | zero =>
+      unfold segments
+      by_cases hc : (c == '[') = true
+      · simp only [hc, if_true]
+        cases hm : matchBracket cs with
+        | none => simp [Seg.text, ih]
+        | some r =>
+          obtain ⟨g, len⟩ := r
+          simp [Seg.text, ih, List.take_append_drop]
+      · simp [hc, Seg.text, ih]
+
+theorem substitute_append (f : Option (List Char) → List Char → Except Err (List Char)) :
+    ∀ (xs ys : List Seg),
+      substitute f (xs ++ ys) =
+        match substitute f xs with
+        | .error e => .error e
+        | .ok a => (substitute f ys).map (a ++ ·) := by
+  intro xs
+  induction xs with
+  | nil =>
+    intro ys
+    simp only [List.nil_append, substitute]
+    cases substitute f ys <;> simp [Except.map]
+  | cons x xs ih =>
+    intro ys
+    cases x with
+    | lit c =>
+      simp only [List.cons_append, substitute, ih]
+      cases substitute f xs with
+      | error e => simp [Except.map]
+      | ok a => cases substitute f ys <;> simp [Except.map]
+    | grp g t =>
+      simp only [List.cons_append, substitute]
+      cases f g t with
+      | error e => rfl
+      | ok r =>
+        simp only [ih]
+        cases substitute f xs with
+        | error e => simp [Except.map]
+        | ok a => cases substitute f ys <;> simp [Except.map]
+
 end Fsic.EvalIdx
